@@ -39,7 +39,10 @@ impl<'a> Remote<'a> {
 
         trace!(?state);
 
-        if state.is_scheduled() || state.is_completed() || state.is_cancelled() {
+        // A cancelled task is still scheduled: the executor has to run it once
+        // more to drop its future. Once the executor has dropped the task the
+        // shared pointer below is null.
+        if state.is_scheduled() || state.is_completed() {
             self.header().state.finish_scheduling();
             return;
         }
@@ -64,8 +67,9 @@ impl<'a> Remote<'a> {
             if !notified && let Some(ref waker) = shared.waker {
                 waker.wake_by_ref();
                 notified = true;
-            } else if self.header().state.load::<Strong>().is_cancelled() {
-                // Bailing out without pushing: release the reservation.
+            } else if self.header().shared.load(Ordering::Acquire).is_null() {
+                // The executor dropped the task (it is tearing down and waits
+                // for us): bail out without pushing and release the reservation.
                 shared.pending.fetch_sub(1, Ordering::Release);
                 self.header().state.finish_scheduling();
                 return;
